@@ -114,6 +114,7 @@ class ACModel:
         self.rx_frames = []
         self.beeps = 0
         self.single_breeze = True
+        self.strict = False                                        # strict: only the registers in self.props exist
 
     def state_frame(self, ftype=3):
         return resp_frame(ftype, encode_state(self.state, self.state_len), self.style)
@@ -124,9 +125,18 @@ class ACModel:
             self.beeps += 1
             return bytes([0])
         if pid == 0xE3:                       # iECO write: frame, number, switch ... -> read form [number, switch]
+            if self.strict and pid not in self.props:
+                return None
             self.props[pid] = bytes([val[1], val[2]]) if len(val) >= 3 else bytes([0, 0])
             return self.props[pid]
+        if self.strict and pid not in self.props:
+            return None                       # a register this appliance does not have: write ignored, nothing reported
         self.props[pid] = bytes(val)
+        if pid == 0x43:                       # breeze control drives the legacy flags of appliances that have both
+            if 0x18 in self.props:
+                self.props[0x18] = b"\x01" if val[:1] == b"\x04" else b"\x00"
+            if 0x42 in self.props:
+                self.props[0x42] = b"\x02" if val[:1] == b"\x02" else b"\x01"
         if self.single_breeze:
             if pid == 0x42 and val[:1] == b"\x02":
                 if 0x18 in self.props:
@@ -201,6 +211,8 @@ class ACModel:
                 p += 3 + sz
                 writes.append((pid, val))
                 rd = self._write_prop(pid, val)
+                if rd is None:
+                    continue
                 body += pid.to_bytes(2, "little") + bytes([0x00, len(rd)]) + rd
                 cnt += 1
             body[1] = cnt
